@@ -14,7 +14,7 @@ if [ -d "canaries/$PROP" ]; then
     scratch=$(mktemp -d "${TMPDIR:-/tmp}/ndndcanary.XXXXXX")
     mkdir -p "$scratch/repo" "$scratch/verif"
     rsync -a --exclude .git "$REPO/" "$scratch/repo/"
-    cp known_findings.json anchors.json "$scratch/verif/" 2>/dev/null
+    cp known_findings.json anchors.json fields.json "$scratch/verif/" 2>/dev/null
     if (cd "$scratch/repo" && patch -p1 -s -f < "$VERIF/$patch" >/dev/null 2>&1); then
       out=$(bin/ndndcheck -prop "$PROP" -tier quick -repo "$scratch/repo" -verif "$scratch/verif" 2>&1)
       if printf '%s\n' "$out" | grep -q "^VIOLATION: .*$expect"; then
@@ -38,7 +38,7 @@ for sd in seeded/$PROP-v*; do
   scratch=$(mktemp -d "${TMPDIR:-/tmp}/ndndcanary.XXXXXX")
   mkdir -p "$scratch/repo" "$scratch/verif"
   rsync -a --exclude .git "$REPO/" "$scratch/repo/"
-  cp known_findings.json anchors.json "$scratch/verif/" 2>/dev/null
+  cp known_findings.json anchors.json fields.json "$scratch/verif/" 2>/dev/null
   if (cd "$scratch/repo" && patch -p1 -s -f < "$VERIF/$sd/patch.diff" >/dev/null 2>&1); then
     out=$(bin/ndndcheck -prop "$PROP" -tier quick -repo "$scratch/repo" -verif "$scratch/verif" 2>&1)
     if printf '%s\n' "$out" | grep -q "^VIOLATION: "; then
